@@ -194,6 +194,7 @@ func Library(dir string) (*Report, error) {
 					}
 					return false
 				case *ast.SelectStmt:
+					rep.Unmodelled = append(rep.Unmodelled, fmt.Sprintf("%s:%d select statement (channel operations are not scheduled)", name, fset.Position(x.Pos()).Line))
 					for _, cl := range x.Body.List {
 						walk2(cl, walk, visitBlock)
 					}
